@@ -251,12 +251,20 @@ func fmtEntries(s rawStore, keys []string) string {
 		}
 		sb.WriteString(hx([]byte(k)))
 		sb.WriteByte('=')
-		sb.WriteString(hx(s[k]))
+		sb.WriteString(hxBig(s[k]))
 	}
 	if sb.Len() == 0 {
 		return "-"
 	}
 	return sb.String()
+}
+
+// hxBig prints byte strings above 4 kB as "#<length>:<SHA3-256>" (both sides of the correspondence do), else as hex.
+func hxBig(b []byte) string {
+	if len(b) > 4096 {
+		return fmt.Sprintf("#%d:%s", len(b), hx(sha3sum(b)))
+	}
+	return hx(b)
 }
 
 func fmtKeys(keys []string) string {
